@@ -702,7 +702,7 @@ fn build_repo(rng: &mut Rng, with_prune: bool) -> Result<(RepoHandle, Vec<Snapsh
 fn exec_scan(seed: u64) -> String {
     let mut rng = Rng::new(seed);
     let with_prune = rng.chance(1, 2);
-    let (h, _snaps) = match build_repo(&mut rng, with_prune) {
+    let (h, snaps) = match build_repo(&mut rng, with_prune) {
         Ok(x) => x,
         Err(e) => return e,
     };
@@ -793,6 +793,13 @@ fn exec_scan(seed: u64) -> String {
             return "oracle-fail:nonce-reused".into();
         }
     }
+    // … and the same holds for a COPY of the repository under another master key (destination with the source's chunker
+    // parameters): nothing readable in its storage, every blob under the destination's key, every file reads back, check clean
+    drop(repo);
+    let mut crng = Rng::new(seed ^ 0xc0b1);
+    if let Err(e) = copy_and_verify(&h, &snaps, true, &mut crng) {
+        return e;
+    }
     "ok".into()
 }
 
@@ -875,6 +882,11 @@ fn exec_hist(seed: u64) -> String {
     }
     cfg.set_datapack_size = Some(bytesize::ByteSize::kib(rng.range(4, 32)));
     cfg.set_treepack_size = Some(bytesize::ByteSize::kib(rng.range(1, 4)));
+    if seed % 2 == 1 {
+        // fixed-size chunker (equal-length chunks); even seeds: Rabin with the repository's own random polynomial
+        cfg.set_chunker = Some(rustic_core::repofile::Chunker::FixedSize);
+        cfg.set_chunk_size = Some(bytesize::ByteSize(256 << (seed / 2 % 5)));
+    }
     let be = MemBackend::new();
     // every file a command removes is kept for the scan
     let removed: Arc<std::sync::Mutex<Vec<(FileType, Bytes)>>> = Arc::new(std::sync::Mutex::new(Vec::new()));
@@ -936,7 +948,7 @@ fn exec_hist(seed: u64) -> String {
     let n_cmds = 4 + rng.below(5);
     let mut round = 0u64;
     for step in 0..n_cmds {
-        let cmd = if step == 0 || snaps.is_empty() { "backup" } else { *rng.pick(&["backup", "backup", "merge", "forget-prune", "prune-all", "repair-index", "config", "key"]) };
+        let cmd = if step == 0 || snaps.is_empty() { "backup" } else { *rng.pick(&["backup", "backup", "merge", "forget-prune", "prune-all", "repair-index", "config", "key", "copy"]) };
         let res: Result<(), String> = (|| {
             match cmd {
                 "backup" => {
@@ -986,6 +998,11 @@ fn exec_hist(seed: u64) -> String {
                 "key" => {
                     _ = plant_key(&h, "pw-hist", &mut rng)?;
                 }
+                "copy" => {
+                    // all snapshots into a fresh repository with ANOTHER master key; 3 of 4 with the source's chunker parameters
+                    let same = rng.chance(3, 4);
+                    copy_and_verify(&h, &snaps, same, &mut rng)?;
+                }
                 _ => return Err("bad-op".into()),
             }
             Ok(())
@@ -1013,10 +1030,16 @@ fn exec_hist(seed: u64) -> String {
         }
     }
     // the history must leave a readable repository (otherwise "nothing readable in storage" would be vacuous)
-    match read_everything(&h, &snaps) {
-        Ok(_) => "ok".into(),
-        Err(e) => format!("oracle-fail:history-unreadable:{e}"),
+    if let Err(e) = read_everything(&h, &snaps) {
+        return format!("oracle-fail:history-unreadable:{e}");
     }
+    // … which can be copied into a repository with another master key and the same chunker parameters (every 2nd history)
+    if seed % 4 < 2 {
+        if let Err(e) = copy_and_verify(&h, &snaps, true, &mut rng) {
+            return format!("{e}-at-end");
+        }
+    }
+    "ok".into()
 }
 
 fn read_everything(h: &RepoHandle, snaps: &[SnapshotFile]) -> Result<Vec<Vec<repo::ReadBack>>, String> {
@@ -1028,6 +1051,117 @@ fn read_everything(h: &RepoHandle, snaps: &[SnapshotFile]) -> Result<Vec<Vec<rep
         out.push(repo::read_back(&repo, s).map_err(|e| errkind(&e))?);
     }
     Ok(out)
+}
+
+// ------------------------------------------------------------------ copy: another repository = another master key
+
+/// A copy destination for `h`: a NEW repository with its OWN fresh master key.  `same_chunker`: the destination's config is the
+/// source's config under a new repository id (same chunker kind, chunk sizes and — for Rabin — polynomial: the documented set-up of
+/// a copy target, so that deduplication works across the two repositories; `ConfigFile::has_same_chunker` is true), optionally
+/// with another compression setting; otherwise a default-initialised repository (own random polynomial).
+fn copy_destination(h: &RepoHandle, same_chunker: bool, rng: &mut Rng) -> Result<RepoHandle, String> {
+    if !same_chunker {
+        let mut cfg = ConfigOptions::default();
+        cfg.set_datapack_size = Some(bytesize::ByteSize::kib(rng.range(4, 32)));
+        cfg.set_treepack_size = Some(bytesize::ByteSize::kib(rng.range(1, 4)));
+        return RepoHandle::init_nocache(MemBackend::new(), None, &cfg).map(|x| x.0).map_err(|e| errkind(&e));
+    }
+    let mut config = h.open_nocache().map_err(|e| errkind(&e))?.config().clone();
+    config.id = Id::random().into();
+    if config.version >= 2 && rng.chance(1, 3) {
+        config.compression = Some(*rng.pick(&[0, 1, -3, 7]));
+    }
+    let hd = RepoHandle { be: MemBackend::new(), hot: None, key: rustic_core::repofile::MasterKey::new() };
+    let repo = Repository::new(&repo::nocache_opts(), &hd.backends()).map_err(|e| errkind(&e))?;
+    _ = repo.init_with_config(&Credentials::Masterkey(hd.key.clone()), &KeyOptions::default(), config).map_err(|e| errkind(&e))?;
+    Ok(hd)
+}
+
+/// `copy` of `snaps` from `h` into a fresh destination (see `copy_destination`), in two runs when there are several snapshots (the
+/// second run finds part of the blobs present), then the destination is examined with ITS OWN key only:
+///  * no stored non-key file of the destination shows a needle / JSON field name / secret string of either master key,
+///  * every blob the destination's index lists decrypts (and decodes) with the destination's key — and NOT with the source's key
+///    (theorem `stored_blob_decrypts_under_own_key`; what a raw transfer of ciphertext between repositories breaks),
+///  * every copied snapshot (found by its tree id) reads back — every file dumped — exactly as it reads in the source,
+///  * `check` and `check --read-data` of the destination are clean.
+fn copy_and_verify(h: &RepoHandle, snaps: &[SnapshotFile], same_chunker: bool, rng: &mut Rng) -> Result<(), String> {
+    if snaps.is_empty() {
+        return Ok(());
+    }
+    let want = read_everything(h, snaps).map_err(|e| format!("oracle-fail:copy-source-unreadable:{e}"))?;
+    let hd = copy_destination(h, same_chunker, rng)?;
+    if serde_json::to_string(&hd.key).ok() == serde_json::to_string(&h.key).ok() {
+        return Err("oracle-fail:copy-setup-same-master-key".into());
+    }
+    let run = |sel: &[SnapshotFile]| -> Result<(), String> {
+        let src = h.open_nocache().map_err(|e| errkind(&e))?.to_indexed().map_err(|e| errkind(&e))?;
+        let dst = hd.open_nocache().map_err(|e| errkind(&e))?.to_indexed_ids().map_err(|e| errkind(&e))?;
+        if same_chunker && !src.config().has_same_chunker(dst.config()) {
+            return Err("oracle-fail:copy-setup-chunker-differs".into());
+        }
+        src.copy(&dst, sel.iter()).map_err(|e| format!("{}@copy", errkind(&e)))
+    };
+    if snaps.len() >= 2 {
+        run(&snaps[..snaps.len() / 2])?;
+    }
+    run(snaps)?;
+    // (1) nothing readable in the destination's storage
+    let mut secrets = master_secrets(h);
+    secrets.extend(master_secrets(&hd));
+    for ((t, _id), bytes) in &hd.be.store() {
+        scan_one(repo::FILE_TYPES[*t as usize], bytes, &secrets).map_err(|e| format!("{e}-of-copy-destination"))?;
+    }
+    // (2) every blob stored in the destination is a message under the destination's key
+    {
+        let drepo = hd.open_nocache().map_err(|e| errkind(&e))?;
+        let srepo = h.open_nocache().map_err(|e| errkind(&e))?;
+        let (dbe, sbe) = (rustic_core::verif::repository::dbe(&drepo), rustic_core::verif::repository::dbe(&srepo));
+        let mut n = 0usize;
+        for id in hd.be.ids(FileType::Index) {
+            let f: IndexFile = dbe.get_file(&rustic_core::repofile::IndexId::from(id)).map_err(|e| errkind(&e))?;
+            for p in f.packs.iter().chain(f.packs_to_delete.iter()) {
+                let Some(bytes) = hd.be.get(FileType::Pack, &Id::from(*p.id)) else { return Err("oracle-fail:copy-dest-pack-missing".into()) };
+                for b in &p.blobs {
+                    let (o, l) = (b.location.offset as usize, b.location.length as usize);
+                    if o + l > bytes.len() {
+                        return Err("oracle-fail:copy-dest-blob-range".into());
+                    }
+                    n += 1;
+                    if dbe.read_encrypted_from_partial(&bytes[o..o + l], b.location.uncompressed_length).is_err() {
+                        return Err("oracle-fail:copy-dest-blob-not-under-dest-key".into());
+                    }
+                    if sbe.read_encrypted_from_partial(&bytes[o..o + l], b.location.uncompressed_length).is_ok() {
+                        return Err("oracle-fail:copy-dest-blob-opens-with-source-key".into());
+                    }
+                }
+            }
+        }
+        if n == 0 {
+            return Err("oracle-fail:copy-dest-holds-no-blob".into());
+        }
+    }
+    // (3) every file of every copied snapshot reads from the destination as it reads from the source
+    {
+        let drepo = hd.open_nocache().map_err(|e| errkind(&e))?;
+        let dsnaps = drepo.get_all_snapshots().map_err(|e| errkind(&e))?;
+        let drepo = drepo.to_indexed().map_err(|e| format!("oracle-fail:copy-dest-index:{}", errkind(&e)))?;
+        for (s, w) in snaps.iter().zip(&want) {
+            let Some(d) = dsnaps.iter().find(|d| d.tree == s.tree) else { return Err("oracle-fail:copy-dest-snapshot-missing".into()) };
+            match repo::read_back(&drepo, d) {
+                Err(e) => return Err(format!("oracle-fail:copy-dest-unreadable:{}", errkind(&e))),
+                Ok(got) if &got != w => return Err("oracle-fail:copy-dest-content-differs".into()),
+                Ok(_) => {}
+            }
+        }
+    }
+    // (4) the destination checks clean, file data included
+    if repo::check_errors_nocache(&hd, false) != Some(0) {
+        return Err("oracle-fail:copy-dest-check".into());
+    }
+    if repo::check_errors_nocache(&hd, true) != Some(0) {
+        return Err("oracle-fail:copy-dest-check-read-data".into());
+    }
+    Ok(())
 }
 
 fn exec_tamper(seed: u64) -> String {
